@@ -26,7 +26,7 @@ def sh(cmd, **kw):
 
 def main():
     args = sys.argv[1:]
-    tier, props, seeds, names, worktree = "quick", None, ["1"], [], False
+    tier, props, seeds, names, worktree, cross, skip = "quick", None, ["1"], [], False, False, []
     i = 0
     while i < len(args):
         if args[i] == "--tier":
@@ -37,6 +37,11 @@ def main():
             seeds = args[i + 1].split(","); i += 2
         elif args[i] == "--worktree":
             worktree = True; i += 1
+        elif args[i] == "--skip":
+            skip = args[i + 1].split(","); i += 2
+        elif args[i] == "--cross":
+            # every registered check against the change (which other properties' checks notice it?)
+            props = ["C%02d" % k for k in range(1, 21)]; cross = True; i += 1
         else:
             names.append(args[i]); i += 1
     if not names:
@@ -48,7 +53,7 @@ def main():
     for name in names:
         d = os.path.join(SEEDED, name)
         meta = json.load(open(os.path.join(d, "meta.json")))
-        todo = props or meta.get("checks") or [meta["property"]]
+        todo = [x for x in (props or meta.get("checks") or [meta["property"]]) if x not in skip]
         repo, env_extra = "/repo", {}
         if worktree:
             repo = f"/tmp/seedrun_{name}"
@@ -84,7 +89,7 @@ def main():
             if worktree:
                 sh(f"git -C /repo worktree remove --force {repo}")
         caught = sorted({k.split("@")[0] for k, v in res.items() if v["exit"] == 1})
-        json.dump({"tier": tier, "seeds": seeds, "results": res, "caught_by": caught}, open(os.path.join(d, f"result-{tier}.json"), "w"), indent=1)
+        json.dump({"tier": tier, "seeds": seeds, "results": res, "caught_by": caught}, open(os.path.join(d, f"result-{'cross' if cross else tier}.json"), "w"), indent=1)
         rows.append((name, ("caught by " + ",".join(caught)) if caught else "MISSED", res))
         print(name, rows[-1][1], {k: (v["exit"], v["kinds"]) for k, v in res.items()}, flush=True)
     assert not sh("git -C /repo status --porcelain").stdout.strip()
